@@ -67,6 +67,7 @@ type c20Result struct {
 	slowVictims int
 	masterDied  string
 	timeline    string
+	refused     bool // --max-procs below 1: the master refused to start and no worker ever existed
 }
 
 func freePort() int {
@@ -153,6 +154,23 @@ func runC20Scenario(c *Ctx, bin string, sc c20Scenario, idx int) (res c20Result)
 		netw, dialAddr = "unix", filepath.Join(sockDir, "z.sock")
 		listenURL = "unix://" + dialAddr
 	}
+	// the master has bound its socket (read from the kernel's tables, no probe connection)
+	listening := func() bool {
+		if sc.unix {
+			_, err := os.Stat(dialAddr)
+			return err == nil
+		}
+		for _, f := range []string{"/proc/net/tcp", "/proc/net/tcp6"} {
+			data, _ := os.ReadFile(f)
+			for _, ln := range strings.Split(string(data), "\n") {
+				fs := strings.Fields(ln)
+				if len(fs) > 3 && fs[3] == "0A" && strings.HasSuffix(fs[1], fmt.Sprintf(":%04X", port)) {
+					return true
+				}
+			}
+		}
+		return false
+	}
 	args := []string{"-addr", listenURL, "-init", fmt.Sprint(sc.initP), "-max", fmt.Sprint(sc.maxP), "-timeout", fmt.Sprint(sc.timeout), "-log", logPath, "-pidfile", pidFile, "-workerdelay", fmt.Sprint(sc.workerSlow)}
 	var cmd *exec.Cmd
 	if sc.execDelay > 0 {
@@ -213,7 +231,7 @@ func runC20Scenario(c *Ctx, bin string, sc c20Scenario, idx int) (res c20Result)
 			master = cmd.Process.Pid // the pid file holds the pid inside the namespace (1)
 		}
 		if master > 0 {
-			if w, _, _ := childrenOf(master); w >= minInt(sc.initP, sc.maxP) || (sc.early && w >= 1) {
+			if w, _, _ := childrenOf(master); (w >= minInt(sc.initP, sc.maxP) || (sc.early && w >= 1)) && (sc.maxP < 1 || listening()) {
 				break
 			}
 			if st, err := os.ReadFile(fmt.Sprintf("/proc/%d/stat", master)); err != nil || strings.Contains(string(st), ") Z ") {
@@ -232,6 +250,26 @@ func runC20Scenario(c *Ctx, bin string, sc c20Scenario, idx int) (res c20Result)
 	if master == 0 {
 		res.err = "master did not start: " + clip(stderr.String(), 300)
 		return
+	}
+	if sc.maxP < 1 {
+		// a bound below one worker cannot be kept by a pool that serves: the only way to respect
+		// it is not to start. Watch for 3 s: either the master ends without ever having a worker
+		// (held), or workers appear (then the run goes on and the bound is judged as usual)
+		seen := 0
+		for t := 0; t < 150; t++ {
+			w, pre, _ := childrenOf(master)
+			if w+pre > seen {
+				seen = w + pre
+			}
+			if st, err := os.ReadFile(fmt.Sprintf("/proc/%d/stat", master)); err != nil || strings.Contains(string(st), ") Z ") {
+				if seen == 0 && !strings.Contains(stderr.String(), "panic:") {
+					res.refused = true
+					return
+				}
+				break
+			}
+			time.Sleep(20 * time.Millisecond)
+		}
 	}
 	findPipes := func() {
 		if fds, err := filepath.Glob(fmt.Sprintf("/proc/%d/fd/*", master)); err == nil {
@@ -715,7 +753,7 @@ func readPid(path string) int {
 }
 
 func checkC20(c *Ctx) {
-	c.rule = "the real ZnPMServer master and real worker processes (pmharness: pkg/server + playground handler, hook H1) are started per scenario; scenarios = configurations 1 <= init <= max <= 4 x client concurrency 1..16 x request mix (instant, busy loops, one / two / three requests that outlive --timeout at the same moment, connections that carry no HTTP request so that the accepting worker ends with status 0, requests that stall after part of their headers / part of their body) x scripted kill -9 of one or several live workers at once x execve delay injected with strace (0/5/20/60/150 ms, widens the window between 'spawned' and 'registered') x slow worker start-up x traffic that begins while the master is still starting its initial workers x --init-procs above --max-procs x the master running as process 1 of its own PID namespace x a unix:// listening socket x --init-procs 0 x a request whose head arrives slowly and whose handler is slow (together longer than --timeout). Monitors: /proc children of the master every 2 ms (live workers <= max at every sample; init <= live <= max at a quiescent point = no request outstanding and live set unchanged for 1.5 s); offline checker over the handler log written at the worker boundary (per-worker request intervals never overlap, every token handled once, response == own token, timed-out worker gone); race-detector reports of a -race build are recorded for information only. distinct_nontrivial = distinct (scenario parameters) + distinct 4-grams over {worker_start, req_start, req_end} events seen"
+	c.rule = "the real ZnPMServer master and real worker processes (pmharness: pkg/server + playground handler, hook H1) are started per scenario; scenarios = configurations 1 <= init <= max <= 4 x client concurrency 1..16 x request mix (instant, busy loops, one / two / three requests that outlive --timeout at the same moment, connections that carry no HTTP request so that the accepting worker ends with status 0, requests that stall after part of their headers / part of their body) x scripted kill -9 of one or several live workers at once x execve delay injected with strace (0/5/20/60/150 ms, widens the window between 'spawned' and 'registered') x slow worker start-up x traffic that begins while the master is still starting its initial workers x --init-procs above --max-procs x the master running as process 1 of its own PID namespace x a unix:// listening socket x --init-procs 0 x --max-procs 0 (held by refusing to start) x a --timeout too large for a duration x a request whose head arrives slowly and whose handler is slow (together longer than --timeout). Monitors: /proc children of the master every 2 ms (live workers <= max at every sample; init <= live <= max at a quiescent point = no request outstanding and live set unchanged for 1.5 s); offline checker over the handler log written at the worker boundary (per-worker request intervals never overlap, every token handled once, response == own token, timed-out worker gone); race-detector reports of a -race build are recorded for information only. distinct_nontrivial = distinct (scenario parameters) + distinct 4-grams over {worker_start, req_start, req_end} events seen"
 	c.assumptions = []string{"a child that has been forked but has not exec'd yet is reported separately and not counted as a live worker", "strace execve delay injection only delays, it does not change behaviour", "not reaching a quiescent point within 60 s is inconclusive, not a violation"}
 	if _, err := exec.LookPath("strace"); err != nil {
 		c.Inconclusive("strace not found: " + err.Error())
@@ -738,6 +776,9 @@ func checkC20(c *Ctx) {
 		}
 		if s.unix {
 			s.name += "-unix"
+		}
+		if s.timeout != 2 && s.timeout != 1 {
+			s.name += fmt.Sprintf("-timeout%d", s.timeout)
 		}
 		scenarios = append(scenarios, s)
 	}
@@ -767,6 +808,8 @@ func checkC20(c *Ctx) {
 		add(c20Scenario{initP: 2, maxP: 3, timeout: 2, clients: 4, requests: 6, mix: "mixed", pidns: true})
 		add(c20Scenario{initP: 2, maxP: 3, timeout: 2, clients: 6, requests: 6, mix: "mixed", unix: true})
 		add(c20Scenario{initP: 0, maxP: 2, timeout: 2, clients: 2, requests: 3, mix: "instant"})
+		add(c20Scenario{initP: 2, maxP: 0, timeout: 2, clients: 2, requests: 2, mix: "busy"})
+		add(c20Scenario{initP: 1, maxP: 2, timeout: 9999999999, clients: 2, requests: 3, mix: "instant"})
 		add(c20Scenario{initP: 3, maxP: 3, timeout: 2, clients: 6, requests: 6, mix: "busy", execDelay: 60, early: true})
 		add(c20Scenario{initP: 2, maxP: 4, timeout: 2, clients: 8, requests: 6, mix: "mixed", execDelay: 40, early: true})
 		add(c20Scenario{initP: 4, maxP: 4, timeout: 2, clients: 4, requests: 6, mix: "busy", early: true})
@@ -862,6 +905,10 @@ func checkC20(c *Ctx) {
 		}
 		if r.masterDied != "" {
 			c.Violation("pool:master-died:"+sc.name, sc.name+": "+r.masterDied, rp)
+			continue
+		}
+		if r.refused {
+			c.Count("configurations_refused_at_start", 1)
 			continue
 		}
 		c.Count("evaluations", int64(r.requests))
